@@ -113,9 +113,12 @@ def run(ctx: core.Ctx):
                 ctx.violation(f"{k}/construct", {"k": k, "p": cases[0]["p"], "h": cases[0]["h"]}, "a term", f"{type(ex).__name__}: {ex}")
                 continue
             xs, exps, fs = [], [], []
+            repeated = {v for v in p[0::2] if p[0::2].count(v) > 1} if k == "Discrete" else set()
             for c in cases:
                 q, e = c["x"]
                 xd = xdouble(q, e)
+                if e == 0 and xd in repeated:
+                    continue        # on a vertical edge of a table the interpolation has two values: only its neighbours are judged
                 env = dict(env0, x=(Fraction(xd) if math.isfinite(xd) else xd))
                 try:
                     exp = kexpr.value(c["f"], env)
